@@ -28,7 +28,7 @@ CLAIMED = {
              text="Bounded in the number of tokens/newlines per query (3/3), unbounded in every offset and length; the oracle is the definition of line/column from newline offsets. What Pygments emits for a text is assumed to follow its documented contract (zero-length tokens included).",
              ref="DESIGN.md 3/C16"),
  "C17": dict(cat="other", technique="CrossHair on the real filter_nocl_comment_tokens with the comment text assembled from solver-chosen parts; skeleton differential through scan_file with the marker at a symbolic line",
-             text="Bounded-exhaustive through the solver over the stated pools (leader, blanks, every letter case, tails; all short bodies over a small alphabet); line numbers unbounded.",
+             text="Bounded-exhaustive through the solver over the stated pools (leader, gaps up to 40 blanks, every letter case, tails; all short bodies over a small alphabet); line numbers unbounded; programs with body-less headers and behind a byte-order mark.",
              ref="DESIGN.md 3/C17"),
  "C01": dict(cat="other", technique="CrossHair on the real scan_file over layout-symbolic skeletons (real-lexer tokens; line gaps and indentation columns unbounded solver variables) vs. generator ground truth; replay as re-rendered text",
              text="For each generated canonical program the solver decides name/order/span/length for EVERY layout (all blank-line counts at up to 10 boundaries at once, all indentation widths). The program family itself is enumerated up to a size bound (the bound), two classes of genuine defects are listed as known findings.",
@@ -49,16 +49,16 @@ CLAIMED = {
              text="Bounded-exhaustive through the solver: every string up to N characters over a 19-character pool in each of 12 string fields for several report shapes. Symbolic strings through the json module were probed and are not decidable with CrossHair (stated in DESIGN.md); integers are concrete sentinels.",
              ref="DESIGN.md 3/C08"),
  "C09": dict(cat="other", technique="one inductive step of the real scan_command over an in-memory FS from a solver-chosen arbitrary (tree, cache) state; analysis = uninterpreted function with call recorder",
-             text="Complete over the abstract state space of the pool (every tree x every cache x version), and by the state invariant it composes to edit histories of any length; bounded by the pool (2-3 paths, 2-3 contents). The discrete state is selected by the solver; the step runs concretely because the writer formats integers.",
+             text="Complete over the abstract state space of the pool (every tree x every cache x version), and by the state invariant it composes to edit histories of any length; bounded by the pool (2-3 paths, 2-3 contents). The discrete state is selected by the solver; the step runs concretely because the writer formats integers. Altered and version-less caches must not be reused; the real calculate_checksum is the md5 of the whole file (sizes around block boundaries).",
              ref="DESIGN.md 3/C09"),
  "C10": dict(cat="fault_enumeration", technique="solver-driven enumeration of crash points / structural faults of the cache document through the real scan_command over the in-memory FS, with a follow-up scan on the state left behind",
              text="Every character offset of the cache documents of three report shapes (pretty and compact), a set of non-JSON texts, every JSON path deleted or retyped, and all cache-directory states; quick skips alternate offset windows of the largest document, thorough is exhaustive.",
              ref="DESIGN.md 3/C10"),
  "C11": dict(cat="other", technique="z3 regex equivalence (unbounded path strings) between every regex compiled by the real generate_exclude_spec and a reference regex of its gitignore class; real scan_path over an in-memory FS for solver-chosen trees x configurations x root forms",
-             text="Exclusion semantics are decided for paths of any length by the solver; composition (hidden pruning, relative keys, language choice, no analysis of non-qualifying files) is decided for every member of a pool-based tree family (14x14x13 + top-level variants) under 4 exclusion configurations and 6 ways of naming the root.",
+             text="Exclusion semantics are decided for paths of any length by the solver; composition (hidden pruning, relative keys, language choice, no analysis of non-qualifying files) is decided for every member of a pool-based tree family (14x14x13 + top-level variants) under 6 exclusion configurations and 6 ways of naming the root; the real CLI option handling combines the exclusion sources in their written order.",
              ref="DESIGN.md 3/C11"),
  "C12": dict(cat="other", technique="real check_command vs real scan_path over one in-memory tree for solver-chosen members x 6 ways of reaching the file x exclusion configurations; decoding agreement on symbolic bytes (CrossHair)",
-             text="Bounded by the tree pool; for every member the listing, the skip rules and the exit status of check are compared with what scan stores for the same file. One known finding (directory argument under a dot-directory) is listed and assumed away.",
+             text="Bounded by the tree pool; for every member the listing, the skip rules and the exit status of check are compared with what scan stores for the same file. One known finding (directory argument under a dot-directory) is listed and assumed away. The real lexers and analysis run on both sides for 11 sample files (markers, Latin-1, BOM, coding cookie, ambiguous extension, markup-like name).",
              ref="DESIGN.md 3/C12"),
  "C06": dict(cat="other", technique="CrossHair: scan B / scan symbolic soup A / scan B isolation harness; permutation-invariance of one real Pattern.consume step over every automaton state (models hash-seed set order); permutation of Codebase insertions; sibling-order variation of scan_path over the in-memory FS",
              text="Bounded soups (N tokens) as the intervening file, every permutation of <= 4 transitions with unbounded token text and depth, all 6 insertion orders with unbounded values, reversed/rotated directory orders over the C11 tree family. Hash seeds and OS directory order enter only through their modelled effect (stated).",
